@@ -86,6 +86,11 @@ func c11Content(c *core.Ctx) string {
 			line = c11InertLines[c.Rng.Intn(len(c11InertLines))]
 		case r < 16:
 			line = c11LongLine(c, []int{4094, 4095, 4096, 4097, 8191, 8192, 8193, 10000}[c.Rng.Intn(8)])
+			if c.Rng.Intn(12) == 0 {
+				// Beyond the 64 KiB token limit of the standard line scanner.
+				line = c11LongLine(c, []int{65535, 65536, 65537, 70000, 131073}[c.Rng.Intn(5)])
+				c.Event("lines_longer_than_64k", 1)
+			}
 		case r == 16:
 			// Padding that puts the next multibyte character on a buffer boundary.
 			pad := 4096 - (sb.Len() % 4096) - 1 - c.Rng.Intn(3)
@@ -214,10 +219,30 @@ func c11IDs(c *core.Ctx, n int) []int {
 
 func c11Run(c *core.Ctx, idx int) {
 	nl := 1 + c.Rng.Intn(4)
+	many := c.Rng.Intn(50) == 0
+	if many {
+		// More lists than an 8-bit counter holds (users of DNS filters do load
+		// hundreds of small lists).
+		nl = 257 + c.Rng.Intn(40)
+		c.Event("storages_with_more_than_256_lists", 1)
+	}
 	ids := c11IDs(c, nl)
 	ignoreCosmetic := c.Rng.Intn(3) == 0
 	contents := make([]string, nl)
 	for i := range contents {
+		if many {
+			var sb strings.Builder
+			for k, n := 0, 1+c.Rng.Intn(4); k < n; k++ {
+				if c.Rng.Intn(3) == 0 {
+					sb.WriteString(c11InertLines[c.Rng.Intn(len(c11InertLines))] + "\n")
+				}
+				name := fmt.Sprintf("many%d-%d.example", i, k)
+				sb.WriteString([]string{"||" + name + "^", "0.0.0.0 " + name, name + "##.banner", "@@||" + name + "^$important"}[c.Rng.Intn(4)] + "\n")
+			}
+			contents[i] = sb.String()
+
+			continue
+		}
 		contents[i] = c11Content(c)
 	}
 	if nl >= 2 && c.Rng.Intn(4) == 0 {
@@ -267,7 +292,16 @@ func c11Run(c *core.Ctx, idx int) {
 	var fls []filterlist.RuleList
 	for i := range contents {
 		p := filepath.Join(dir, fmt.Sprintf("l%d.txt", i))
-		if err = os.WriteFile(p, []byte(contents[i]), 0o644); err != nil {
+		// The content of a file-backed list is what its file holds when the
+		// list is read: one list in six is opened while its file is still
+		// being written (a prefix cut anywhere, also inside a line) and gets
+		// the rest appended before anything is scanned.
+		first := contents[i]
+		if c.Rng.Intn(6) == 0 && len(first) > 0 {
+			first = first[:c.Rng.Intn(len(first))]
+			c.Event("file_lists_that_grow_after_they_are_opened", 1)
+		}
+		if err = os.WriteFile(p, []byte(first), 0o644); err != nil {
 			c.Inconclusive("cannot write scratch file")
 
 			return
@@ -279,6 +313,18 @@ func c11Run(c *core.Ctx, idx int) {
 			return
 		}
 		fls = append(fls, fl)
+		if len(first) < len(contents[i]) {
+			af, aerr := os.OpenFile(p, os.O_WRONLY|os.O_APPEND, 0o644)
+			if aerr == nil {
+				_, aerr = af.WriteString(contents[i][len(first):])
+				_ = af.Close()
+			}
+			if aerr != nil {
+				c.Inconclusive("cannot write scratch file")
+
+				return
+			}
+		}
 	}
 	fileStorage, err := filterlist.NewRuleStorage(fls)
 	if err != nil {
@@ -459,7 +505,7 @@ func init() {
 	core.Register(&core.Prop{
 		ID:    "C11",
 		Level: "exploration",
-		Rule: "per case 1..4 lists with distinct ids from {0, 1, -1, MinInt32, MaxInt32, random int32}, contents assembled from valid rules of every kind, comments, blanks and rejects with LF / CRLF / mixed / lone CR, with and without a final newline, BOM, NUL bytes, multi-byte characters placed on the 4 KiB buffer boundary, lines of 4094..10000 bytes, IgnoreCosmetic on/off, and a second list with identical offsets but different content; " +
+		Rule: "per case 1..4 lists with distinct ids from {0, 1, -1, MinInt32, MaxInt32, random int32}, contents assembled from valid rules of every kind, comments, blanks and rejects with LF / CRLF / mixed / lone CR, with and without a final newline, BOM, NUL bytes, multi-byte characters placed on the 4 KiB buffer boundary, lines of 4094..10000 bytes (one long line in twelve: 65535..131073 bytes), one storage in fifty with 257..296 lists, one file list in six opened on a prefix of its content that grows to the full content before the first scan, IgnoreCosmetic on/off, and a second list with identical offsets but different content; " +
 			"for the String-backed and the File-backed storage: scan sequence == line-by-line reference parse (kind, text, list id, index), indexes injective, RetrieveRule(idx) == scanned rule cold and warm in random order, cache size, and engines over both backings answer a request sample identically; non-trivial = storage with at least one rule; distinct by content",
 		Assumptions: []string{
 			"scan completely, then retrieve (the two readers of a FileRuleList share one file offset)",
